@@ -72,19 +72,24 @@ def _init_worker(modname):
     global CASE_TIMEOUT
     CASE_TIMEOUT = int(os.environ.get('MCX_CASE_TIMEOUT', getattr(mod, 'CASE_TIMEOUT', CASE_TIMEOUT)))
     signal.signal(signal.SIGALRM, _alarm)
+    signal.signal(signal.SIGPROF, _alarm)
 
 
 def _run_one(case):
-    """Evaluate one case in a worker; never raises."""
+    """Evaluate one case in a worker; never raises.
+    The per-case limit counts CPU seconds of the worker (ITIMER_PROF), so that a loaded machine cannot turn a slow
+    case into an alarm; a wall-clock limit of 30x that catches a case that blocks without using CPU."""
     t0 = time.time()
-    signal.alarm(CASE_TIMEOUT)
+    signal.setitimer(signal.ITIMER_PROF, CASE_TIMEOUT)
+    signal.alarm(30 * CASE_TIMEOUT)
     try:
         try:
             res = _EVAL(case)
         finally:
+            signal.setitimer(signal.ITIMER_PROF, 0)
             signal.alarm(0)
     except CaseTimeout:
-        res = dict(viol=[('TIMEOUT', 'case exceeded %d s' % CASE_TIMEOUT)])
+        res = dict(viol=[('TIMEOUT', 'case exceeded %d CPU seconds (or %d s wall clock)' % (CASE_TIMEOUT, 30 * CASE_TIMEOUT))])
     except BaseException as e:  # harness or code under test blew up
         tb = traceback.extract_tb(e.__traceback__)
         fr = [f for f in tb if '/mininec/' in f.filename]
